@@ -10,13 +10,17 @@ From Coq Require Import String List Bool Arith.
 From GolemV Require Import Serial.HistoryCodec Serial.HistoryCodecProofs.
 Import ListNotations.
 
-(* 1. loading what was saved gives an isomorphic history: same objective, tuning result and
+(* The guard: one object per uid among everything reachable from the generations and the archive
+   ([uid_faithful]) and no uid string in a parent slot ([no_str]).  No condition on where the
+   parents or archive members are recorded: the pool holds everything reachable.
+
+   1. loading what was saved gives an isomorphic history: same objective, tuning result and
    directory, generation numbers / labels / metadata / ordered members, archive snapshots, and
    for every individual of the whole lineage (intermediate ancestors included) uid, fitness,
    graph, metadata, native generation, parent operator (type, operators, uid, ordered parents),
    with the same sharing of objects; and the loaded history has one object per uid *)
 Theorem C10_decode_encode_iso : forall H d d' E H',
-  uid_faithful H -> pool_closed H ->
+  uid_faithful H -> no_str H ->
   encode_history d H = Some E -> decode_history d' E = Some H' ->
   iso H H' /\ uid_faithful H'.
 Proof. exact decode_encode_iso. Qed.
@@ -24,7 +28,7 @@ Print Assumptions C10_decode_encode_iso.
 
 (* 2. saving the loaded history reproduces the same JSON tree *)
 Theorem C10_encode_idempotent : forall H d d' E H',
-  uid_faithful H -> pool_closed H ->
+  uid_faithful H -> no_str H ->
   encode_history d H = Some E -> decode_history d' E = Some H' ->
   encode_history d H' = Some E.
 Proof. exact encode_idempotent. Qed.
@@ -38,7 +42,7 @@ Print Assumptions C10_encode_respects_iso.
 (* the JSON of a faithful pool-closed history mentions only uids of its pool, each once; this is
    what the driver's [guard_b] tests on the JSON actually written ([e_closed_b] decides it) *)
 Theorem C10_encode_closed : forall H d E,
-  uid_faithful H -> pool_closed H -> encode_history d H = Some E -> e_closed_b E = true.
+  uid_faithful H -> no_str H -> encode_history d H = Some E -> e_closed_b E = true.
 Proof. intros H d E UF PCL Henc. apply e_closed_b_iff. exact (encode_closed H d E UF PCL Henc). Qed.
 Print Assumptions C10_encode_closed.
 
@@ -48,9 +52,9 @@ Proof. exact decode_total. Qed.
 Print Assumptions C10_decode_total.
 
 (* saving a history built by the constructors (parents are objects created before the child)
-   needs a depth of at most (largest member reference + 1) *)
+   needs a depth of at most (largest generation / archive member reference + 1) *)
 Theorem C10_encode_total : forall H d, heap_ordered (h_heap H) ->
-  (forall r, In r (all_members (h_gens H)) -> r < d) -> encode_history d H <> None.
+  (forall r, In r (pool_roots H) -> r < d) -> encode_history d H <> None.
 Proof. exact encode_total. Qed.
 Print Assumptions C10_encode_total.
 
@@ -61,30 +65,27 @@ Theorem C10_legacy_paths : forall k v, In (k, v) LEGACY_CLASS_PATHS -> resolves_
 Proof. exact legacy_paths. Qed.
 Print Assumptions C10_legacy_paths.
 
-(* full statement, refuted by the tree as it is:
-     forall k v, In (k, v) LEGACY_MODULE_PATHS -> legacy_module_map k = v /\ In v CURRENT_MODULES
-   proved for every entry but fedot.core.utilities -> golem.core.utilities (no such module) *)
-Theorem C10_legacy_module_paths_partial : forall k v,
-  In (k, v) LEGACY_MODULE_PATHS -> k <> "fedot.core.utilities"%string ->
+(* every prefix of LEGACY_MODULE_PATHS maps to its target, and the target is a module of the
+   current tree *)
+Theorem C10_legacy_module_paths : forall k v, In (k, v) LEGACY_MODULE_PATHS ->
   legacy_module_map k = v /\ In v CURRENT_MODULES.
-Proof. exact legacy_module_paths_partial. Qed.
-Print Assumptions C10_legacy_module_paths_partial.
+Proof. exact legacy_module_paths. Qed.
+Print Assumptions C10_legacy_module_paths.
 
-Theorem C10_legacy_utilities_refuted :
-  exists k v, In (k, v) LEGACY_MODULE_PATHS /\ ~ In (legacy_module_map k) CURRENT_MODULES.
-Proof. exact legacy_utilities_refuted. Qed.
-Print Assumptions C10_legacy_utilities_refuted.
+(* 4. boundaries of 1 and 2.
+   Two objects with one uid (not uid-faithful): the pool keeps the last one and both generations
+   get that object back, the payload of the first is lost. *)
+Theorem C10_duplicate_uid_refuted :
+  ~ uid_faithful D /\
+  exists E, encode_history 5 D = Some E /\ decode_history 5 E = Some D_loaded /\ ~ iso D D_loaded.
+Proof. exact duplicate_uid_refuted. Qed.
+Print Assumptions C10_duplicate_uid_refuted.
 
-(* 4. boundary of 1 and 2: the history W (a parent WITH native generation that is in no
-   generation, shared by two members) is uid-faithful but not pool-closed; its JSON lacks the
-   parent, loading builds one MISSING_INDIVIDUAL placeholder per reference: not isomorphic
-   (payload lost), two objects for one uid, and saving again gives a different JSON *)
-Theorem C10_missing_parent_refuted :
-  uid_faithful W /\ ~ pool_closed W /\
-  encode_history 5 W = Some W_json /\ decode_history 5 W_json = Some W_loaded /\
-  ~ iso W W_loaded /\ ~ uid_faithful W_loaded /\ encode_history 5 W_loaded <> Some W_json.
-Proof. exact missing_parent_refuted. Qed.
-Print Assumptions C10_missing_parent_refuted.
+(* A history holding an individual that was loaded on its own (parents are uid strings) cannot
+   be saved: the encoder raises, whatever the budget. *)
+Theorem C10_string_parent_refuted : forall d, encode_history d S_hist = None.
+Proof. exact string_parent_refuted. Qed.
+Print Assumptions C10_string_parent_refuted.
 
 (* 5. per-individual dumps: the individual loaded from its dump equals the in-memory one in every
    field (parents by uid), and saving it again gives the dump *)
@@ -96,11 +97,11 @@ Print Assumptions C10_dump_roundtrip.
 (* non-vacuity: a history with a shared parent and an intermediate ancestor satisfies the
    hypotheses of 1 and 2, is saved and loaded within a budget of 4, and the guard is true *)
 Example C10_guard_satisfiable :
-  uid_faithful X /\ pool_closed X /\ heap_ordered (h_heap X) /\
+  uid_faithful X /\ no_str X /\ heap_ordered (h_heap X) /\
   (exists E H', encode_history 4 X = Some E /\ decode_history 4 E = Some H' /\ length (e_pool E) = 3 /\
                 iso_b X H' = true /\ e_closed_b E = true).
 Proof.
-  split; [exact X_faithful|]. split; [exact X_closed|]. split; [exact X_ordered|].
+  split; [exact X_faithful|]. split; [exact X_no_str|]. split; [exact X_ordered|].
   eexists. eexists. split; [vm_compute; reflexivity|]. split; [vm_compute; reflexivity|].
   split; [reflexivity|]. split; vm_compute; reflexivity.
 Qed.
